@@ -35,6 +35,8 @@ MUTANTS = [
     ("unfix-F14c-decline", ["C16"], ["unfix_F14c_decline.diff"], []),
     ("unfix-F17-epoch-hint-by-hash", ["C17"], ["unfix_F17_epoch_hint_by_hash.diff"], []),
     ("unfix-F18-welcome-id-late", ["C16", "C06"], ["unfix_F18_welcome_id_late.diff"], []),
+    ("c20-release-loop-skips-two", ["C20"], [], [(CORE + "epoch_snapshots.rs", '                for (i, snap) in removed.into_iter().enumerate() {\n                    // Skip the first one (index 0) - it was already consumed by rollback\n                    if i > 0 {\n                        let _ = storage.release_group_snapshot(&snap.group_id, &snap.snapshot_name);\n                    }\n                }', '                for snap in removed.into_iter().skip(2) {\n                    let _ = storage.release_group_snapshot(&snap.group_id, &snap.snapshot_name);\n                }')]),
+    ("c20-release-loop-index-ne-one", ["C20"], [], [(CORE + "epoch_snapshots.rs", "                    if i > 0 {\n                        let _ = storage.release_group_snapshot", "                    if i != 1 {\n                        let _ = storage.release_group_snapshot")]),
     ("c16-welcome-admin-limit-stricter-than-group", ["C16", "C06"], [], [(MEM + "lib.rs", "pub const DEFAULT_MAX_ADMINS_PER_WELCOME: usize = 100;", "pub const DEFAULT_MAX_ADMINS_PER_WELCOME: usize = 50;")]),
     ("c16-sqlite-welcome-name-limit-stricter", ["C16", "C06"], [], [(SQL + "welcomes.rs", "validate_string_length(&welcome.group_name, MAX_GROUP_NAME_LENGTH, \"Group name\")", "validate_string_length(&welcome.group_name, MAX_GROUP_NAME_LENGTH / 2, \"Group name\")")]),
     ("c01-comparator-le", ["C01", "C07"], [], [(CORE + "epoch_snapshots.rs", "if candidate_ts < snapshot.applied_commit_ts {", "if candidate_ts <= snapshot.applied_commit_ts {")]),
@@ -842,6 +844,10 @@ EQ = os.path.join(HERE, "equiv")
 
 # behaviour-preserving refactors: every listed check must stay SILENT (exit 0) on them — a check that fires here is a false alarm
 EQUIV = [
+    # not behaviour-preserving: a partial repair sketch for F20 (name / description bounded at decode time, before the merge); the checks
+    # must accept it (the four name / description obligations are discharged, nothing new fires)
+    ("eq-repair-sketch-F20-name-description-bounds", ["C06", "C08", "C15", "C05"], [os.path.join(EQ, "repair_sketch_f20_name_description_bounds.diff")], []),
+    ("eq-c20-release-loop-skip-one", ["C20", "C11", "C09"], [], [(CORE + "epoch_snapshots.rs", '                for (i, snap) in removed.into_iter().enumerate() {\n                    // Skip the first one (index 0) - it was already consumed by rollback\n                    if i > 0 {\n                        let _ = storage.release_group_snapshot(&snap.group_id, &snap.snapshot_name);\n                    }\n                }', '                for snap in removed.into_iter().skip(1) {\n                    let _ = storage.release_group_snapshot(&snap.group_id, &snap.snapshot_name);\n                }')]),
     ("eq-sqlite-welcome-validation-helper", ["C16", "C06", "C10", "C12"], [os.path.join(EQ, "sqlite_welcome_validation_helper.diff")], []),
     ("eq-memory-sort-by-key", ["C18", "C10", "C06"], [os.path.join(EQ, "memory_sort_by_key.diff")], []),
     ("eq-unrelated-additions", ["C%02d" % i for i in range(1, 21)], [os.path.join(EQ, "unrelated_additions.diff")], []),
